@@ -32,6 +32,8 @@ func genCase(t *rapid.T) Case {
 	shape := rapid.IntRange(0, 2).Draw(t, "shape")
 	ho := gen.HistoryOpts{MaxSteps: 8, MaxBatch: 12, PoolSize: 24, Reopen: true, Evict: true, FieldProb: rapid.SampledFrom([]int{35, 70, 90, 100}).Draw(t, "fieldProb"),
 		AllowRejected: rapid.IntRange(0, 5).Draw(t, "allowRejected") == 0}
+	// the same id more than once in one update batch (merged in order; the indices must see the net change)
+	ho.AllowDupUpdate = rapid.IntRange(0, 3).Draw(t, "dupUpdate") == 0
 	if shape == 2 {
 		ho.PoolSize, ho.MaxBatch = 90, 60
 	}
